@@ -255,7 +255,7 @@ fn collections(ctx: &mut Ctx) {
     }
     if ctx.mine() {
         // long and nested collections, with the one bad element far from both ends
-        for len in [7usize, 33, 100, 1000, 5000] {
+        for len in [7usize, 33, 100, 1000, 5000, 65_535, 65_536, 200_000] {
             for bad_at in [None, Some(len / 2), Some(len - 1)] {
                 ctx.count();
                 ctx.hit("collections:long");
@@ -266,10 +266,10 @@ fn collections(ctx: &mut Ctx) {
                     (Got::Overflow, Some(_)) => {}
                     (other, _) => bad(ctx, "Vec<u16>", "collection", format!("len {len}, bad at {bad_at:?}: {}", clip(format!("{other:?}"), 200)), &Value::Int(len as i128)),
                 }
-                let m: BTreeMap<String, Value> = items.iter().enumerate().map(|(i, v)| (format!("k{i:04}"), v.clone())).collect();
+                let m: BTreeMap<String, Value> = items.iter().enumerate().map(|(i, v)| (format!("k{i:06}"), v.clone())).collect();
                 let src = Value::Map(m);
                 match (got(guard(|| HashMap::<String, u16>::try_from(src.clone()))), bad_at) {
-                    (Got::Ok(h), None) if h.len() == len && (0..len).all(|i| h.get(&format!("k{i:04}")).map(|x| *x as usize) == Some(i % 200)) => {}
+                    (Got::Ok(h), None) if h.len() == len && (0..len).all(|i| h.get(&format!("k{i:06}")).map(|x| *x as usize) == Some(i % 200)) => {}
                     (Got::Overflow, Some(_)) => {}
                     (other, _) => bad(ctx, "HashMap<String,u16>", "collection", format!("len {len}, bad at {bad_at:?}: {}", clip(format!("{other:?}"), 200)), &Value::Int(len as i128)),
                 }
